@@ -44,7 +44,7 @@ WHAT = {
         "another connection and overwrites the one the first replacement published, which is then referenced by nobody "
         "and never closed (not even by shutdown())",
     "HostConnection.shutdown:trashed-connections-not-closed":
-        "HostConnection.shutdown() leaves the connections of _trash open (pool.py 547-549 iterates the new empty set)",
+        "HostConnection.shutdown() does not close the connections set aside in _trash (pool.py shutdown(), last part)",
     "HostConnection._replace:publishes-new-connection-after-shutdown":
         "_replace publishes the connection it opened although the pool was shut down meanwhile; nobody closes it (pool.py 511-514)",
     "HostConnection.return_connection:dead-old-connection-clears-current":
